@@ -321,8 +321,39 @@ def r13_5(ck, F):
                   "`done` is set outside the Done arm (or never)", hb.loc(sw))
 
 
+def r13_6(ck, F):
+    ck.rule("R13.6", "event order inside one operation: where a method both holds a change-tracking wrapper (whose Drop "
+            "may emit Set) and emits an event itself, the wrapper has been consumed (moved into drop / out of the local) "
+            "on every path before that event is sent whenever its scope-end Drop is still reachable afterwards",
+            "retain(|k, v| ..) rejecting an entry: Remove(k) is followed by a late Set(k, v) from the wrapper's Drop and "
+            "every mirror re-inserts the removed entry", floor=1)
+    n = 0
+    for b in F.by_dp.values():
+        if b.crate != "remoc" or "/robs/" not in b.file:
+            continue
+        wl = [i for i, l in enumerate(b.locals) if any(f"::{w}<" in l["ty"] for w in ("RefMut",)) and "robs::" in l["ty"]
+              and not l["ty"].startswith("&")]
+        sends = [bb for bb, t in b.calls("robs::send_event")]
+        if not wl or not sends:
+            continue
+        for l in wl:
+            drops = [bb for bb in b.reachable if b.term(bb)["t"] == "drop" and b.term(bb)["p"] == [l]]
+            moves = {bb for bb in b.moves_of(l) if b.term(bb)["t"] != "drop"}
+            for sb in sends:
+                late = [d for d in drops if d in b.reach([sb], include_start=False)]
+                if not late:
+                    continue
+                n += 1
+                consumed = any(b.dominates(m, sb) for m in moves)
+                ck.expect(consumed, f"{mir.strip_generics(b.path)}#wrapper-before-event",
+                          "the tracking wrapper is consumed before the explicit event is sent",
+                          f"a {b.local_ty(l).split('<')[0].split('::')[-1]} wrapper is still alive when send_event is called at "
+                          f"{b.loc(sb)}; its Drop at {b.loc(late[0])} can emit a Set after that event", b.loc(sb))
+    ck.expect(n >= 1, "wrapper-before-event#sites", f"{n} site(s)", "no method combining a tracking wrapper with an explicit event found", None)
+
+
 def run(ck, F):
-    for r in (r13_1, r13_2, r13_3, r13_4, r13_5):
+    for r in (r13_1, r13_2, r13_3, r13_4, r13_5, r13_6):
         ck.run_rule(r)
 
 
